@@ -1,0 +1,14 @@
+//go:build verif
+
+package dhcpd
+
+// Contracts for govc (see /verif/DESIGN.md).  This file is comment-only and is compiled only with -tags=verif.
+
+// ---- C14: the lease database is only ever replaced atomically ----
+
+//@ func writeDB(path string, leases []*dbLease) (err error)
+//@   property C14
+//@   modifies *
+//@   callsite github.com/google/renameio/v2/maybe.WriteFile(filename, data, perm) requires filename == path0
+
+//@ sweep C14 os.WriteFile, os.Create, os.OpenFile, os.Truncate, github.com/google/renameio/v2/maybe.WriteFile, github.com/google/renameio/v2.WriteFile
